@@ -20,17 +20,17 @@ type SolverRun struct {
 }
 
 type Verdict struct {
-	Ob       *Obligation
-	Status   string // discharged | failed | undecided | engine-error   (for ExpectSat: discharged means sat)
-	Runs     []SolverRun
-	Solver   string
-	Ms       int64
-	Model    string
-	SMTPath  string
-	SMTBytes int
-	Watch    []WatchItem
-	Values   map[string]string // contract-level expression -> value in the counterexample
-	Candidate bool             // model comes from the weakened context
+	Ob        *Obligation
+	Status    string // discharged | failed | undecided | engine-error   (for ExpectSat: discharged means sat)
+	Runs      []SolverRun
+	Solver    string
+	Ms        int64
+	Model     string
+	SMTPath   string
+	SMTBytes  int
+	Watch     []WatchItem
+	Values    map[string]string // contract-level expression -> value in the counterexample
+	Candidate bool              // model comes from the weakened context
 }
 
 type solverDef struct {
